@@ -153,6 +153,7 @@ def _mixed_coq(a):
     return clist([cZ(5), cZ(a["i"])])
 
 
+FIT_HONOURS_OPTIONS = True  # /repo (round 4): the one-batch path of BatchCluster.fit clusters with the object's own label options
 FIRST_ITEM_FREE = True      # /repo (round 4): GraphCluster normalises every attribute value on its own, like BatchCluster
 ATTR_KEY = "att"
 ATTR_KEY2 = "att2"
@@ -257,7 +258,8 @@ class _World:
         cfg = self.case.get("cfg")
         if cfg is None:
             return cls()
-        vals = [list(cfg["names"]), list(cfg["defaults"]), cfg["edge"], "nx"]
+        # the backend name is accepted case-insensitively by both constructors: "NX" / "Nx" must configure the nx matchers too
+        vals = [list(cfg["names"]), list(cfg["defaults"]), cfg["edge"], cfg.get("backend", "nx")]
         return self._call(cls, ["node_label_names", "node_label_default", "edge_attribute", "backend"], vals, {"backend": "nx"})
 
     def gc(self):
@@ -653,8 +655,8 @@ def _in_domain(case):
                 return False
             if k == "iso" and op[3] == "defaults" and _eff(case) != DEF_CFG:
                 return False
-            if case.get("cfg") is not None and k == "fit" and _norm_cfg(case["cfg"]) != _norm_cfg(DEF_CFG):
-                # BatchCluster.fit's one-shot path builds a default GraphCluster(): only the default configuration is modelled
+            if not FIT_HONOURS_OPTIONS and case.get("cfg") is not None and k == "fit" and _norm_cfg(case["cfg"]) != _norm_cfg(DEF_CFG):
+                # before the repair BatchCluster.fit's one-shot path built a default GraphCluster()
                 return False
             if case.get("match") is not None and k in ("cluster", "fit", "gc_fit"):
                 return False           # these entry points cannot be given matchers
@@ -1136,8 +1138,8 @@ def oracle(case):
             return
         if not inv:
             return
-        if case.get("cfg") is not None and k == "fit" and _norm_cfg(case["cfg"]) != _norm_cfg(DEF_CFG):
-            return            # see notes: the one-shot path ignores the constructor options (outside the property text)
+        if not FIT_HONOURS_OPTIONS and case.get("cfg") is not None and k == "fit" and _norm_cfg(case["cfg"]) != _norm_cfg(DEF_CFG):
+            return            # before the repair the one-shot path ignored the constructor options
         known = list(state["assigned"]) if t_before else []
         rep_classes = {c for _, c in t_before}
         for i, c in zip(idxs, classes):
@@ -2063,10 +2065,12 @@ def gen_cases(tier, rng):
             ops = [["gc_fit", rng.sample(idx, size)], ["gc_iter", rng.sample(idx, size), True]]
             ops += [["lib_check", i] for i in rng.sample(idx, min(3, size))]
             ops += [["cluster", rng.sample(idx, size)], ["reset"], ["cluster", rng.sample(idx, size)]]
-            if _norm_cfg(cfg) == _norm_cfg(DEF_CFG):
-                ops += [["fit", idx, None], ["reset"], ["fit", idx, 2]]
+            if FIT_HONOURS_OPTIONS or _norm_cfg(cfg) == _norm_cfg(DEF_CFG):
+                ops += [["fit", idx, None], ["reset"], ["fit", idx, 2], ["reset"], ["fit", rng.sample(idx, size), size + 1]]
             ops.append(["iso", rng.randrange(size), rng.randrange(size), "nm"])
             return ops
+        if t % 4 == 3:
+            cfg = dict(cfg, backend=rng.choice(["NX", "Nx"]))
         mk("options/constructor", items, rng.choice(["none", "none", "str"]), True, cfg_hist, p_shared=0.7, fancy=True, cfg=cfg, variant="sig")
     for t in range(N(24, 150)):
         m = CFGS[t % 7]
